@@ -1,15 +1,16 @@
 #!/bin/bash
 # usage: try_mutant.sh <patch.diff> <PROP> [extra vcheck args]
-# Applies the patch to /repo, runs the quick check, reverts the patch. Prints exit code.
+# Applies the patch to a scratch worktree of /repo's HEAD (never to /repo itself), runs the quick check against it
+# through VSIM_REPO, removes the worktree. Prints the violation keys and the exit code.
 set -u
-patch="$1"; prop="$2"; shift 2
-cd /repo || exit 9
-if ! git diff --quiet; then echo "repo dirty; abort"; exit 9; fi
-git apply "$patch" || { echo "patch does not apply"; exit 9; }
+patch="$(readlink -f "$1")"; prop="$2"; shift 2
+wt=/tmp/wt-try-$$
+git -C /repo worktree add -q --detach "$wt" HEAD || exit 9
+if ! git -C "$wt" apply "$patch"; then echo "patch does not apply"; git -C /repo worktree remove --force "$wt"; exit 9; fi
 cd /verif
-timeout 1800 ./vcheck.py check "$prop" --no-evidence --no-selftest "$@" > /tmp/try_mutant.$$.log 2>&1
+VSIM_REPO="$wt" timeout 3600 ./vcheck.py check "$prop" --no-evidence --no-selftest "$@" > /tmp/try_mutant.$$.log 2>&1
 rc=$?
-cd /repo && git checkout -- . 
-grep -E "^VIOLATION|^  key|^summary|HARNESS" /tmp/try_mutant.$$.log | head -12
+git -C /repo worktree remove --force "$wt"
+grep -E "^VIOLATION|^  key|^summary|HARNESS" /tmp/try_mutant.$$.log | head -14
 echo "exit=$rc"
 rm -f /tmp/try_mutant.$$.log
